@@ -1079,12 +1079,14 @@ impl<'a> TLVSequence<'a> {
     fn container_value_len(&self, control: TLVControl) -> Result<usize, Error> {
         if control.value_type.is_container() {
             let mut next = self.clone();
-            let mut len = 0;
+            let mut len = 0usize;
             let mut level = 1;
 
             while level > 0 {
                 next = next.next_enter()?;
-                len += next.len()?;
+                len = len
+                    .checked_add(next.len()?)
+                    .ok_or(ErrorCode::TLVTypeMismatch)?;
 
                 let control = next.control()?;
 
@@ -1110,9 +1112,10 @@ impl<'a> TLVSequence<'a> {
     fn len(&self) -> Result<usize, Error> {
         let control = self.control()?;
 
-        self.value_len(control).map(|value_len| {
-            1 + control.tag_type.size() + control.value_type.variable_size_len() + value_len
-        })
+        // The value length is peer-controlled (up to 2^64 - 1): the sum must not overflow
+        (1 + control.tag_type.size() + control.value_type.variable_size_len())
+            .checked_add(self.value_len(control)?)
+            .ok_or_else(|| ErrorCode::TLVTypeMismatch.into())
     }
 
     /// Return the length of the first TLV element in the sequence, regardless of the element type.
@@ -1120,9 +1123,9 @@ impl<'a> TLVSequence<'a> {
     pub(crate) fn container_len(&self) -> Result<usize, Error> {
         let control = self.control()?;
 
-        self.container_value_len(control).map(|value_len| {
-            1 + control.tag_type.size() + control.value_type.variable_size_len() + value_len
-        })
+        (1 + control.tag_type.size() + control.value_type.variable_size_len())
+            .checked_add(self.container_value_len(control)?)
+            .ok_or_else(|| ErrorCode::TLVTypeMismatch.into())
     }
 
     /// Returns a sub-slice representing the start of the next TLV element in the sequence.
